@@ -46,6 +46,8 @@ Require Import Ctpg.Model.Dfa.
 Require Import Ctpg.Model.Containers.
 Require Import Ctpg.Proofs.LRGenWordsRefine.
 Require Import Ctpg.Proofs.CharsetWordsRefine.
+Require Import Ctpg.Proofs.KernelWordsRefine.
+Require Import Ctpg.Proofs.MergedFromLink.
 
 (* char_subset is a cbitset<256>: for EVERY sequence of operations (set, ranges as repeated set, whole-set flip for '.' and inverted sets) test(j) is membership in the described set of bytes *)
 Theorem C03_character_sets_are_sets_of_bytes :
@@ -76,6 +78,12 @@ Theorem C03_inverted_set_example_on_words :
   match ex_neg_abc with | Ok b => map (fun c : nat => cb_test b (N.of_nat c)) [96; 97; 98; 99; 100; 200; 255; 256] | _ => [] end = [Ok true; Ok false; Ok false; Ok false; Ok true; Ok true; Ok true; Throw].
 Proof. exact @ex_neg_abc_tests. Qed.
 Print Assumptions C03_inverted_set_example_on_words.
+
+(* LINK (builder): `if (merged_from.test(from)) return; merged_from.set(from);` on the words of the state's bitset stays related to the model's `if mem_nat from l then l else from :: l` over any sequence of merges *)
+Theorem C03_merged_from_on_words_is_the_models_list :
+  forall (n : nat) (js : list nat) (b : cbitset) (l : list nat), merged_rel n b l -> Forall (fun j : nat => j < n) js -> exists b' : cbitset, fold_left w_merge_step js (Ok b) = Ok b' /\ merged_rel n b' (fold_left l_merge_step js l).
+Proof. exact @merged_fold_sim. Qed.
+Print Assumptions C03_merged_from_on_words_is_the_models_list.
 
 (* 256 is a multiple of 64: no padding bits exist, flip() and set() are exact *)
 Theorem C03_whole_set_flip_is_exact_for_256_bits :
